@@ -483,7 +483,16 @@ func c13GateCase(c *Ctx, bed *px.Bed, j c13Job, v primitive.ProtocolVersion, op 
 			r.Violate(mon.Violation{Signature: fmt.Sprintf("C13/gate/error-does-not-name-version/%s", label), Scenario: scen, Witness: wit(),
 				Detail: fmt.Sprintf("the protocol error must name the version (%d) so drivers can downgrade; message: %q", int(v), msg)})
 		}
-		if be := c13BackendRecv(c13Since(bed, mark)); len(be) > 0 {
+		// backend traffic caused by the rejected frame: frames in the rejected version (the proxy's own connections speak
+		// the configured one) or carrying this frame's token. Other traffic - a pooled connection of the proxy that is
+		// re-established in the background at that moment - is the proxy's own.
+		var be []mon.Event
+		for _, e := range c13BackendRecv(c13Since(bed, mark)) {
+			if e.Ver == int(v) || e.Tok == tok || bytes.Contains(e.Body, []byte(tok)) {
+				be = append(be, e)
+			}
+		}
+		if len(be) > 0 {
 			r.Violate(mon.Violation{Signature: fmt.Sprintf("C13/gate/rejected-version-forwarded/%s", label), Scenario: scen, Witness: wit(),
 				Detail: "a rejected frame caused backend traffic: " + c13DescribeBackend(be)})
 		}
